@@ -219,6 +219,8 @@ OBS["into_steelval_u128"] = _o(["C20"], "proof", ["impl IntoSteelVal for u128"],
 OBS["complex_imaginary_sign_classification"] = _o(["C12"], "proof", ["SteelComplex::imaginary_is_finite", "SteelComplex::imaginary_is_negative"], "for every f64 / fixnum imaginary part: finite <=> is_finite (NaN and infinities are not), negative <=> sign bit; the writer relies on this to print `a+bi` only when that is readable syntax")
 OBS["big_to_small_int_conversions"] = _o(["C20"], "proof", ["FromSteelVal for u8/i8/i64 (BigNum arm)"], "a bignum never converts to a narrower integer")
 OBS["float_char_bool_unit_conversions"] = _o(["C20"], "proof", ["from_f64!", "try_from_impl!(NumV)", "char/bool/()/Option impls"], "f64/f32/char/bool/()/Option round trip; mistyped values are ConversionErrors")
+OBS["exact_integer_sqrt_delegates"] = _o(["C10"], "bounded", ["exact_integer_sqrt"], "for a non-negative fixnum the primitive takes root and remainder from exact_integer_impl (the exact integer routine is consulted exactly once, on x itself) and returns the list (root remainder) of two fixnums", bound="3 concrete operands (17, 67108865^2, 3037000499^2+7)")
+OBS["exact_integer_impl_contract"] = _o(["C10"], "bounded", ["exact_integer_impl"], "exact_integer_impl(x) = (s, r): s is the integer square root delivered by the exact integer routine (num_integer::Roots::sqrt, assumed dependency contract), taken of x itself, exactly once, and r = x - s*s; both canonical fixnums", bound="x = s*s + d with s from a 10-value table (0-3, 2^16, 2^26+1, 94906266, 2^31-1, 2^31, 3037000499) and EVERY d in 0..=2s")
 OBS["exact_integer_sqrt_rejects_negative"] = _o(["C10", "C07"], "proof", ["exact_integer_sqrt"], "negative fixnums and flonums are TypeMismatch error values")
 OBS["ord_variadic_compares_adjacent_pairs"] = _o(["C10", "C01"], "proof", ["ord_internal", "ensure_real", "greater_than", "greater_than_equal", "less_than", "less_than_equal"], "(< a b c) <=> a<b and b<c (likewise > <= >=) for all fixnum triples - every ADJACENT pair is compared; a non-real operand before the first failing pair is a TypeMismatch; no argument is an ArityMismatch")
 OBS = {k: v for k, v in OBS.items() if v}
